@@ -175,6 +175,19 @@ pub fn run(cases_path: &str, out_path: &str, tier: &str, seed: u64) {
                     ];
                     let m = CleartextSignedMessage::new(&text, cfg, &k4.primary_key, &Password::empty())?;
                     m.verify(&p4)?;
+                    // the low-level entry point takes any configuration: what it signs with a binary-type configuration, verify() accepts too
+                    let mut cfgb = SignatureConfig::v4(SignatureType::Binary, k4.primary_key.algorithm(), HashAlgorithm::Sha512);
+                    cfgb.hashed_subpackets = vec![
+                        Subpacket::regular(SubpacketData::SignatureCreationTime(Timestamp::now()))?,
+                        Subpacket::regular(SubpacketData::IssuerFingerprint(k4.primary_key.fingerprint()))?,
+                    ];
+                    if let Ok(mb) = CleartextSignedMessage::new(&text, cfgb, &k4.primary_key, &Password::empty()) {
+                        mb.verify(&p4)?;
+                        if representable {
+                            let (mb2, _) = CleartextSignedMessage::from_string(&mb.to_armored_string(ArmorOptions::default())?)?;
+                            mb2.verify(&p4)?;
+                        }
+                    }
                     let m2 = CleartextSignedMessage::new_many(&text, |signed_text| {
                         let mk = |h| -> pgp::errors::Result<pgp::packet::Signature> {
                             let mut cfg = SignatureConfig::v4(SignatureType::Text, k4.primary_key.algorithm(), h);
